@@ -107,7 +107,11 @@ C01(t) ==
   /\ Chk(out.ret # "panic", "C01|" \o o \o "|panic", out)
   /\ Chk(out.nmsgs <= 1, "C01|" \o o \o "|multiple-replies|" \o t.tr, out.msglens)
   /\ Chk(out.canary_ok, "C01|" \o o \o "|out-of-bounds-write|" \o t.tr, out)
-  /\ Chk(out.tail_untouched, "C01|" \o o \o "|reply-tail-touched|" \o t.tr, out)
+  \* READ / READDIR / READDIRPLUS let the file system write its output through a cursor behind the header space
+  \* before the outcome is known: when it then fails, the error reply is the message and what was written
+  \* behind it lies inside the supplied reply buffer (not outside it, and not a second message)
+  /\ (out.nmsgs = 1 /\ o \in {"READ", "READDIR", "READDIRPLUS"} /\ ~r.short /\ r.error # 0)
+        \/ Chk(out.tail_untouched, "C01|" \o o \o "|reply-tail-touched|" \o t.tr, out)
   /\ o \notin {"FORGET", "BATCH_FORGET"} \/ Chk(out.nmsgs = 0, "C01|" \o o \o "|reply-to-forget", out.msglens)
   /\ ~(t.gen = "wf" /\ o \notin NoReplyOps) \/ Chk(out.nmsgs = 1, "C01|" \o o \o "|no-reply-to-wellformed|" \o t.tr, out)
   /\ ~(t.gen = "class" /\ ClsWellFormed(t.x.cls) /\ ClsNeedsReply(t.x.cls) /\ t.x.cls.cap = "big")
